@@ -23,3 +23,9 @@ pub open spec fn lz_copy(s: Seq<u8>, len: nat, dist: int) -> Seq<u8>
 {
     if len == 0 { s } else { lz_copy(s.push(s[s.len() - dist]), (len - 1) as nat, dist) }
 }
+
+// ---- vacuity canary: this obligation MUST be reported as failing on every run -------------------
+pub proof fn vacuity_canary_must_fail(x: int)
+    ensures x == x + 1,   // [CANARY]
+{
+}
